@@ -65,9 +65,14 @@ func replayHO(idx int, c *MCase, mode string, out *[]Mismatch) {
 		ctls[i] = &Ctl{}
 		srcs[i] = ctls[i].Observable(mode, nil)
 	}
+	var dest ro.Subscriber[any] // the downstream subscriber: it can be cut from anywhere, also from inside the subscription of an inner source
 	if j := c.ISync.J; j > 0 {
 		n := Notif{K: c.ISync.K, V: float64(j + 1)}
-		ctls[j].OnSub = func(cs *ctlSub) { emitMulti(cs, j+1, 0, n) }
+		if n.K == "U" {
+			ctls[j].OnSub = func(cs *ctlSub) { dest.Unsubscribe() }
+		} else {
+			ctls[j].OnSub = func(cs *ctlSub) { emitMulti(cs, j+1, 0, n) }
+		}
 	}
 	o, err := BuildHO(c.M.G, srcs[0], srcs[1:])
 	if err != nil {
@@ -104,7 +109,8 @@ func replayHO(idx int, c *MCase, mode string, out *[]Mismatch) {
 	for i, st := range c.Steps {
 		switch st.Do {
 		case "sub":
-			guard(i, func() { r.sub = o.SubscribeWithContext(base, r.observer()) })
+			dest = ro.NewSubscriber(r.observer())
+			guard(i, func() { r.sub = o.SubscribeWithContext(base, dest) })
 		case "push":
 			k := st.Src - 1
 			cs := ctls[k].nth(0)
@@ -207,7 +213,7 @@ func replayHO(idx int, c *MCase, mode string, out *[]Mismatch) {
 				add(i, "torn", fmt.Sprintf("source %d teardown ran %d times, expected %d (output closed=%v)", k+1, t, st.Exp.Torn[k], st.Exp.Closed))
 			}
 		}
-		if st.Do == "unsub" {
+		if st.Do == "unsub" || (c.ISync.K == "U" && st.Exp.Closed) {
 			r.unsubbed = true
 		}
 	}
